@@ -14,7 +14,10 @@ const rule = "a case is a Go type assembled with reflect.SliceOf/MapOf/PtrTo/Str
 	"plus one value of it; families: hand-written corpus, bounded-exhaustive (all shapes of depth <= 2 x boundary values: min/max of " +
 	"every integer width, float extremes/subnormals/non-finite, nil/empty/1/2 elements), seeded random shapes of depth <= 4 (70% avoiding " +
 	"every known-finding input class), random structs with name tags and declared defaults (also on pointer fields); every case carries a " +
-	"history of 1-3 earlier values of the same type that the destination of a second conversion (ReflectTo) went through; a case is non-trivial when its value holds a non-empty container, a " +
+	"history of 1-3 earlier values of the same type that the destination of a second conversion (ReflectTo) went through; family static: " +
+	"statically declared Go types that reflect cannot assemble (defined scalar, slice and map types such as type Blob []byte, net.IP, []Octet, " +
+	"map[Label]Octet; structs that embed structs first / in the middle / last, by value and by pointer, with and without a declared parent " +
+	"type), each bare, behind a pointer, as slice element and as map value, x boundary and random values; a case is non-trivial when its value holds a non-empty container, a " +
 	"non-nil pointer/interface, or a scalar at the minimum or maximum of its kind; distinct = distinct (type, value) texts"
 
 func newCasesFile() *lib.CasesFile {
@@ -71,11 +74,13 @@ func nontrivial(s *Shape, v *Val) bool {
 const maxCasesPerFile = 1500
 
 type runner struct {
-	cfg   *lib.Config
-	res   *lib.Result
-	total int
-	ffmt  map[uint64]string
-	shard int // number of cases files already written for the current family
+	cfg    *lib.Config
+	res    *lib.Result
+	total  int
+	ffmt   map[uint64]string
+	shard  int             // number of cases files already written for the current family
+	ncf    *lib.CasesFile  // cases of the static family
+	acSeen map[string]bool // struct types whose attribute derivation was emitted
 }
 
 // flush writes the cases file of the current family when it is full and starts the next shard.
@@ -117,7 +122,9 @@ func (r *runner) process(cs *Case, toCoq bool, cf *lib.CasesFile) {
 		r.res.Nontrivial(cs.S.String() + "=" + cs.V.Text(cs.S))
 	}
 	bad := directCheck(cs, o, r.res)
-	if toCoq || (bad && len(r.res.Violations) <= 20) {
+	if hasStatic(cs.S) {
+		r.processStatic(cs, o, toCoq || (bad && len(r.res.Violations) <= 20))
+	} else if toCoq || (bad && len(r.res.Violations) <= 20) {
 		cf.Add(o.gallina(cs), map[string]interface{}{"shape": cs.S, "value": cs.V, "history": cs.H})
 		for b, t := range o.Ffmt {
 			r.ffmt[b] = t
@@ -191,6 +198,41 @@ func main() {
 		cf = r.flush(cf, "cases_struct")
 	}
 	r.finish(cf, "cases_struct")
+	// 4. statically declared Go types (defined scalar / slice / map types, structs with embedded structs)
+	capStatic, nRandStatic := 16, 6
+	if cfg.Thorough() {
+		capStatic, nRandStatic = 60, 200
+	}
+	r.ncf = newNamedCasesFile()
+	nst := 0
+	for _, s := range staticShapes() {
+		vs := boundaryValues(s, capStatic)
+		for i, v := range vs {
+			cs := &Case{S: s, V: v, Family: "static"}
+			cs.H = []*Val{vs[len(vs)-1]}
+			if i%2 == 1 {
+				cs.H = append(cs.H, vs[(i+len(vs)-1)%len(vs)])
+			}
+			c2 := cloneCase(cs)
+			nameStructs(c2)
+			r.process(c2, (nst+int(cfg.Seed))%3 == 0 || cfg.Thorough(), nil)
+			nst++
+		}
+		for i := 0; i < nRandStatic; i++ {
+			g := rng.Fork()
+			m := genMode{clean: g.Chance(7, 10)}
+			cs := &Case{S: s, V: randVal(g, s, m, 0), Family: "static"}
+			for n := 1 + g.Intn(3); n > 0; n-- {
+				cs.H = append(cs.H, randVal(g, s, m, 0))
+			}
+			c2 := cloneCase(cs)
+			nameStructs(c2)
+			r.process(c2, i < 1 || (cfg.Thorough() && i < 20), nil)
+			nst++
+		}
+	}
+	res.Extra["static_cases"] = nst
+	r.finishStatic()
 	res.Write(cfg)
 }
 
@@ -210,6 +252,7 @@ func cloneCase(cs *Case) *Case {
 // emits the same case(s) for the model.
 func replay(r *runner) {
 	cf := newCasesFile()
+	r.ncf = newNamedCasesFile()
 	for _, in := range lib.ReplayInputs(r.cfg.Replay) {
 		cs := &Case{}
 		lib.Remarshal(in, cs)
@@ -247,4 +290,7 @@ func replay(r *runner) {
 		}
 	}
 	writeCases(r, cf, "cases_replay")
+	if len(r.ncf.Cases) > 0 {
+		r.finishStatic()
+	}
 }
